@@ -126,7 +126,7 @@ class Optimizer:
         ]
 
         self._parameter_history = ParameterHistory()
-        self._parameter_history.append(scheme.parameters)
+        self._parameter_history.append(self._parameters)
         if _vt.ENABLED: _vt.emit("constructed", opt=str(id(self)), tee=str(id(self._tee)), nh=self._parameter_history.number_of_records, method=self._method, verbose=bool(verbose), raise_exception=bool(raise_exception), x=_vt.free_digest(scheme.parameters), xr=_vt.free_digest(scheme.parameters, 12), snap=_vt.values_digest(scheme.parameters), **_vt.optimizer_lengths(self))  # noqa: E501,E701
 
     def optimize(self):
@@ -142,7 +142,7 @@ class Optimizer:
             initial_parameter,
             lower_bounds,
             upper_bounds,
-        ) = self._scheme.parameters.get_label_value_and_bounds_arrays(exclude_non_vary=True)
+        ) = self._parameters.get_label_value_and_bounds_arrays(exclude_non_vary=True)
         with self._tee:
             try:
                 verbose = 2 if self._verbose else 0
